@@ -1,0 +1,32 @@
+//go:build verif
+
+package przs
+
+// Contracts for the deductive checker in /verif (comment-only; compiled only under the verif tag).
+
+//@ pure func zOth(ctx *session.Context, a Int) Int = seqat(ctx.OtherPartiesOrdered(), a, int)
+
+// Pseudorandom zero share (C10): the share value is the ordered combination, over ALL other parties of the context,
+// of one group element per peer drawn from the reader the context keeps for THAT peer (the pairwise seed stream, in
+// the state it has when the sampler is called), INVERTED exactly when the peer's identifier is smaller than the
+// holder's. (Both ends of a pair hold the same stream (session.NewContext contract) and exactly one of them inverts,
+// so the pair's terms cancel in the sum over the quorum.) The result is an additive share of the holder over the
+// context's quorum.
+//@ func SampleZeroShare
+//@   property C10
+//@   uses reader
+//@   ghostvar acc map[int]typeof(value)
+//@   ghostvar rs map[int]typeof(value)
+//@   ghostvar ss map[int]V
+//@   ghostvar shk_before V
+//@   ensures err == nil ==> acc[0] == g.OpIdentity() && forall a Int :: 0 <= a && a < seqlen(ctx.OtherPartiesOrdered()) ==> acc[a+1] == acc[a].Op(ite(zOth(ctx, a) < ctx.HolderID(), rs[a].OpInv(), rs[a]))
+//@   ensures err == nil ==> result == res(additive.NewShare(ctx.HolderID(), acc[seqlen(ctx.OtherPartiesOrdered())], as), 0)
+//@   loop range(ctx.OtherPartiesOrdered())
+//@     invariant acc[0] == g.OpIdentity() && acc[$i] == value && forall a Int :: 0 <= a && a < $i ==> acc[a+1] == acc[a].Op(ite(zOth(ctx, a) < ctx.HolderID(), rs[a].OpInv(), rs[a]))
+//@   ghostset before "for id := range ctx.OtherPartiesOrdered() {": acc[0] = value
+//@   ghostset before "v, err := g.Random(ctx.Seeds()[id])": ss[$i] = shk(ctx.Seeds()[id])
+//@   ghostset before "v, err := g.Random(ctx.Seeds()[id])": shk_before = shk(ctx.Seeds()[zOth(ctx, $i)])
+//@   ghostset after "v, err := g.Random(ctx.Seeds()[id])": rs[$i] = v
+// each term is a draw from the reader the context keeps for THIS peer (never from another peer's reader or a fixed one)
+//@   assert after "v, err := g.Random(ctx.Seeds()[id])": err == nil ==> drawn(box(v), ss[$i]) && ss[$i] == shk_before && id == zOth(ctx, $i)
+//@   ghostset after "value = value.Op(v)": acc[$i+1] = value
